@@ -23,6 +23,8 @@ pub struct VerifKadDump {
     pub queries: Vec<query::VerifQueryState>,
     /// Non-empty buckets of the routing table: `(bucket index, nodes in bucket order)`.
     pub routing_table: Vec<(usize, Vec<VerifTableNode>)>,
+    /// Keys of the records in the local store (unordered).
+    pub store_keys: Vec<Vec<u8>>,
 }
 
 /// One node of a k-bucket as the routing table stores it.
@@ -140,6 +142,7 @@ impl Kademlia {
                     })
                 })
                 .collect(),
+            store_keys: self.store.verif_records().keys().map(|key| key.to_vec()).collect(),
         };
         probe.inner.lock().push(VerifProbeEntry::AtSelect(dump));
     }
